@@ -204,12 +204,13 @@ Definition nns_owner_of (now : Z) (ns : nstate) (name : bytes) : nres bytes :=
 Definition txt_of (ns : nstate) (tok name : bytes) : list bytes :=
   default [] (txts ns !! (tok, name)).
 
-(** [GetRecords(name, TXT)]. *)
+(** [GetRecords(name, TXT)]: the expiration walk follows the token's own name
+    ([getFragmentedNameState(ctx, tokenID, nil)]). *)
 Definition nns_get_records (now : Z) (ns : nstate) (name : bytes) : nres (list bytes) :=
   let fs := split_dot name in
   if (length fs =? 1)%nat then NTol else
   tok <-? token_id now ns name;
-  _ <-? name_state now ns tok fs;
+  _ <-? name_state now ns tok (split_dot tok);
   NOk (txt_of ns tok name).
 
 (** [NameState.checkAdmin]: committee-owned names need the committee majority
